@@ -150,7 +150,9 @@ theorem cinv_stepWrite (c : Ctl) (h : CInv c) (off len : Nat) (fails : List Stri
             · exact cinv_stepFanOut _ hc _ fails
             · exact hc
           · split
-            · exact cinv_stepFanOut _ (cinv_ioFail _ hc _) _ fails
+            · split
+              · exact cinv_ioFail _ hc _
+              · exact cinv_stepFanOut _ (cinv_ioFail _ hc _) _ fails
             · exact cinv_ioFail _ hc _
       · exact cinv_stepFanOut c h _ fails
 
